@@ -111,6 +111,151 @@ def murmur3Raw (bs : List UInt8) : UInt64 :=
 /-- The server-side token of a serialized partition key: Murmur3 then `MIN ↦ MAX`. -/
 def murmur3Spec (bs : List UInt8) : Int64 := tokenNew (murmur3Raw bs).toInt64
 
+/-! ### Cassandra's Java source, transliterated statement by statement (independent of the definitions above)
+
+`org.apache.cassandra.utils.MurmurHash.hash3_x64_128(ByteBuffer key, int offset, int length, long seed)` with
+`offset = 0`, `seed = 0`, and `Murmur3Partitioner.getToken`. Nothing here refers to `hash16`, `fetch16`, `le64`, `sext`,
+`tailXor`, `mixK1/2`, `fmix`, `finalMix` or `tailAndFinal`; `Props/C03.lean` proves the two formulations equal for every
+byte string. A Java `byte` is represented by its bit pattern (`UInt8`), a Java `long` by its bit pattern (`UInt64`):
+`+`, `*`, `^`, `<<` agree on bit patterns, `>>>` is the logical shift. -/
+namespace Java
+
+/-- `(long) b` for a Java `byte b`: bytes are signed, `0x80..0xff` denote `-128..-1`. -/
+def toLong (b : UInt8) : UInt64 :=
+  if b.toNat < 128 then UInt64.ofNat b.toNat else UInt64.ofNat b.toNat + 0xffffffffffffff00
+
+/-- `key.get(i)` -/
+def get (key : List UInt8) (i : Nat) : UInt8 := key.getD i 0
+
+/-- `getblock(key, offset, index)`:
+```java
+int i_8 = index << 3;
+int blockOffset = offset + i_8;
+return ((long) key.get(blockOffset + 0) & 0xff) + (((long) key.get(blockOffset + 1) & 0xff) << 8) + ...
+       + (((long) key.get(blockOffset + 7) & 0xff) << 56);
+``` -/
+def getblock (key : List UInt8) (offset index : Nat) : UInt64 :=
+  let i_8 := index <<< 3
+  let blockOffset := offset + i_8
+  (toLong (get key (blockOffset + 0)) &&& (0xff : UInt64)) + ((toLong (get key (blockOffset + 1)) &&& (0xff : UInt64)) <<< 8) +
+  ((toLong (get key (blockOffset + 2)) &&& (0xff : UInt64)) <<< 16) + ((toLong (get key (blockOffset + 3)) &&& (0xff : UInt64)) <<< 24) +
+  ((toLong (get key (blockOffset + 4)) &&& (0xff : UInt64)) <<< 32) + ((toLong (get key (blockOffset + 5)) &&& (0xff : UInt64)) <<< 40) +
+  ((toLong (get key (blockOffset + 6)) &&& (0xff : UInt64)) <<< 48) + ((toLong (get key (blockOffset + 7)) &&& (0xff : UInt64)) <<< 56)
+
+/-- `rotl64(v, n) = (v << n) | (v >>> (64 - n))` -/
+def rotl64 (v : UInt64) (n : UInt64) : UInt64 := (v <<< n) ||| (v >>> (64 - n))
+
+/-- `fmix(k)`: `k ^= k >>> 33; k *= 0xff51afd7ed558ccdL; k ^= k >>> 33; k *= 0xc4ceb9fe1a85ec53L; k ^= k >>> 33;` -/
+@[irreducible] def fmix (k : UInt64) : UInt64 :=
+  let k := k ^^^ (k >>> 33)
+  let k := k * 0xff51afd7ed558ccd
+  let k := k ^^^ (k >>> 33)
+  let k := k * 0xc4ceb9fe1a85ec53
+  let k := k ^^^ (k >>> 33)
+  k
+
+def c1 : UInt64 := 0x87c37b91114253d5
+def c2 : UInt64 := 0x4cf5ad432745937f
+
+/-- The body of the block loop:
+```java
+k1 *= c1; k1 = rotl64(k1,31); k1 *= c2; h1 ^= k1;
+h1 = rotl64(h1,27); h1 += h2; h1 = h1*5+0x52dce729;
+k2 *= c2; k2  = rotl64(k2,33); k2 *= c1; h2 ^= k2;
+h2 = rotl64(h2,31); h2 += h1; h2 = h2*5+0x38495ab5;
+``` -/
+@[irreducible] def loopBody (h : UInt64 × UInt64) (k1 k2 : UInt64) : UInt64 × UInt64 :=
+  let h1 := h.1
+  let h2 := h.2
+  let k1 := k1 * c1
+  let k1 := rotl64 k1 31
+  let k1 := k1 * c2
+  let h1 := h1 ^^^ k1
+  let h1 := rotl64 h1 27
+  let h1 := h1 + h2
+  let h1 := h1 * 5 + 0x52dce729
+  let k2 := k2 * c2
+  let k2 := rotl64 k2 33
+  let k2 := k2 * c1
+  let h2 := h2 ^^^ k2
+  let h2 := rotl64 h2 31
+  let h2 := h2 + h1
+  let h2 := h2 * 5 + 0x38495ab5
+  (h1, h2)
+
+/-- The tail `switch(length & 15)` with its fall-through: `case n` is entered for every `n ≤ length & 15`.
+```java
+case 15: k2 ^= ((long) key.get(offset+14)) << 48;
+case 14: k2 ^= ((long) key.get(offset+13)) << 40;
+case 13: k2 ^= ((long) key.get(offset+12)) << 32;
+case 12: k2 ^= ((long) key.get(offset+11)) << 24;
+case 11: k2 ^= ((long) key.get(offset+10)) << 16;
+case 10: k2 ^= ((long) key.get(offset+9)) << 8;
+case  9: k2 ^= ((long) key.get(offset+8)) << 0;
+         k2 *= c2; k2  = rotl64(k2,33); k2 *= c1; h2 ^= k2;
+case  8: k1 ^= ((long) key.get(offset+7)) << 56;
+ ...
+case  1: k1 ^= ((long) key.get(offset));
+         k1 *= c1; k1  = rotl64(k1,31); k1 *= c2; h1 ^= k1;
+``` -/
+def tailSwitch (key : List UInt8) (offset : Nat) (sw : Nat) (h1 h2 : UInt64) : UInt64 × UInt64 :=
+  let k1 : UInt64 := 0
+  let k2 : UInt64 := 0
+  let k2 := if 15 ≤ sw then k2 ^^^ (toLong (get key (offset + 14)) <<< 48) else k2
+  let k2 := if 14 ≤ sw then k2 ^^^ (toLong (get key (offset + 13)) <<< 40) else k2
+  let k2 := if 13 ≤ sw then k2 ^^^ (toLong (get key (offset + 12)) <<< 32) else k2
+  let k2 := if 12 ≤ sw then k2 ^^^ (toLong (get key (offset + 11)) <<< 24) else k2
+  let k2 := if 11 ≤ sw then k2 ^^^ (toLong (get key (offset + 10)) <<< 16) else k2
+  let k2 := if 10 ≤ sw then k2 ^^^ (toLong (get key (offset + 9)) <<< 8) else k2
+  let k2 := if 9 ≤ sw then k2 ^^^ (toLong (get key (offset + 8)) <<< 0) else k2
+  let h2 := if 9 ≤ sw then h2 ^^^ (rotl64 (k2 * c2) 33 * c1) else h2
+  let k1 := if 8 ≤ sw then k1 ^^^ (toLong (get key (offset + 7)) <<< 56) else k1
+  let k1 := if 7 ≤ sw then k1 ^^^ (toLong (get key (offset + 6)) <<< 48) else k1
+  let k1 := if 6 ≤ sw then k1 ^^^ (toLong (get key (offset + 5)) <<< 40) else k1
+  let k1 := if 5 ≤ sw then k1 ^^^ (toLong (get key (offset + 4)) <<< 32) else k1
+  let k1 := if 4 ≤ sw then k1 ^^^ (toLong (get key (offset + 3)) <<< 24) else k1
+  let k1 := if 3 ≤ sw then k1 ^^^ (toLong (get key (offset + 2)) <<< 16) else k1
+  let k1 := if 2 ≤ sw then k1 ^^^ (toLong (get key (offset + 1)) <<< 8) else k1
+  let k1 := if 1 ≤ sw then k1 ^^^ toLong (get key offset) else k1
+  let h1 := if 1 ≤ sw then h1 ^^^ (rotl64 (k1 * c1) 31 * c2) else h1
+  (h1, h2)
+
+/-- `hash3_x64_128(key, 0, key.remaining(), 0)`: the pair `{h1, h2}`. -/
+def hash3_x64_128 (key : List UInt8) : UInt64 × UInt64 :=
+  let length := key.length
+  let nblocks := length >>> 4
+  -- for (int i = 0; i < nblocks; i++) { k1 = getblock(key, offset, i*2+0); k2 = getblock(key, offset, i*2+1); ... }
+  let h := (List.range nblocks).foldl
+    (fun h i => loopBody h (getblock key 0 (i * 2 + 0)) (getblock key 0 (i * 2 + 1))) ((0 : UInt64), (0 : UInt64))
+  -- offset += nblocks * 16;
+  let offset := nblocks * 16
+  let h := tailSwitch key offset (length &&& 15) h.1 h.2
+  -- h1 ^= length; h2 ^= length; h1 += h2; h2 += h1; h1 = fmix(h1); h2 = fmix(h2); h1 += h2; h2 += h1;
+  let h1 := h.1 ^^^ UInt64.ofNat length
+  let h2 := h.2 ^^^ UInt64.ofNat length
+  let h1 := h1 + h2
+  let h2 := h2 + h1
+  let h1 := fmix h1
+  let h2 := fmix h2
+  let h1 := h1 + h2
+  let h2 := h2 + h1
+  (h1, h2)
+
+/-- `Murmur3Partitioner.getToken(key)`:
+```java
+if (key.remaining() == 0) return MINIMUM;              // new LongToken(Long.MIN_VALUE)
+long[] hash = getHash(key);                             // MurmurHash.hash3_x64_128(key, key.position(), key.remaining(), 0)
+return new LongToken(normalize(hash[0]));               // v == Long.MIN_VALUE ? Long.MAX_VALUE : v
+```
+(ScyllaDB's `murmur3_partitioner::get_token` does the same: minimum token for an empty key.) -/
+def getToken (key : List UInt8) : Int64 :=
+  if key.length = 0 then Int64.minValue
+  else
+    let v := (hash3_x64_128 key).1.toInt64
+    if v = Int64.minValue then Int64.maxValue else v
+
+end Java
+
 /-! ### The driver's streaming hasher -/
 
 structure Hasher where
